@@ -4,6 +4,8 @@ import PdtVerif.Lemmas.CtcRefine
 import PdtVerif.Lemmas.CtcTopK
 import PdtVerif.Lemmas.CtcModule
 import PdtVerif.Lemmas.CtcFusion
+import PdtVerif.Lemmas.CtcNorm
+import PdtVerif.Lemmas.CtcNormArray
 /-!
 # C05 — CTC prefix search reports true prefix mass, never more, never NaN
 
@@ -151,6 +153,102 @@ example : Unpruned 1 [exFrame] [[[0], []]] beamInit := by
   · simp
   · have : p = [0] := by simpa using h
     subst this; simp
+
+/-! ## Normalisation and monotonicity of prefix masses (improvement round 3) -/
+
+/-- **C05_total_mass** (normalisation): if every frame is sub-stochastic — non-negative weights and, from
+every reading state `(prefix, symbol just read)`, `blank + Σ_v (repeat weight of v if v was just read, else
+the weight of extending the prefix by v) ≤ 1`, see `outW` — then the true masses of ANY pairwise distinct
+prefixes add up to at most one (and each is non-negative).  Frames without fusion (`ext q v = tok v`) are
+sub-stochastic as soon as `blank + Σ_v tok v ≤ 1` (`subStoch_plain`): the softmax frames of the search. -/
+theorem C05_total_mass (V : Nat) (frames : List Frame) (hf : ∀ f ∈ frames, f.SubStoch V)
+    (ps : List (List Nat)) (hnd : ps.Nodup) :
+    (∀ p, 0 ≤ mass V frames p) ∧ (ps.map (mass V frames)).sum ≤ 1 :=
+  ⟨mass_nonneg V frames (fun f h => (hf f h).nonneg),
+   le_trans (sum_mass_le_total V frames (fun f h => (hf f h).nonneg) ps hnd) (totalW_le_one V frames hf)⟩
+
+/-- **C05_total_mass_eq**: with stochastic frames (outgoing weight exactly one from every state: frames of
+probabilities without fusion, `stoch_plain`) the masses of pairwise distinct prefixes that cover the
+collapse of every alignment add up to exactly one: `mass` is a probability distribution over prefixes. -/
+theorem C05_total_mass_eq (V : Nat) (frames : List Frame) (hf : ∀ f ∈ frames, f.Stoch V)
+    (ps : List (List Nat)) (hnd : ps.Nodup)
+    (hall : ∀ a ∈ allAlign V frames.length, collapse V a ∈ ps) :
+    (ps.map (mass V frames)).sum = 1 := by
+  rw [sum_mass_eq_total V frames ps hnd, totalW_eq_one V frames hf]
+  intro st hst
+  simp only [finals, List.mem_map] at hst
+  obtain ⟨a, ha, rfl⟩ := hst
+  rw [runAlign_pre V frames a (length_of_mem_allAlign ha)]
+  exact hall a ha
+
+/-- **C05_prefix_mass** — `prefixMass p` is Graves' prefix probability: the total weight of the alignments
+whose textbook collapse STARTS with `p`. -/
+theorem C05_prefix_mass (V : Nat) (frames : List Frame) (p : List Nat) :
+    prefixMass V frames p =
+      ((allAlign V frames.length).map (fun a =>
+        if p <+: collapse V a then (runAlign V frames a).w else 0)).sum := by
+  rw [prefixMass_eq]
+  unfold finals
+  rw [List.map_map]
+  congr 1
+  apply List.map_congr_left
+  intro a ha
+  simp only [Function.comp]
+  rw [runAlign_pre V frames a (length_of_mem_allAlign ha)]
+
+/-- **C05_prefix_split** (monotonicity): for all frames (with or without fusion, any weights) and every
+prefix, the prefix probability of `p` is the mass of `p` itself plus the prefix probabilities of its `V`
+one-token extensions.  With non-negative weights therefore: the one-token extensions of a prefix together
+never outweigh it, a prefix's own mass never exceeds its prefix probability, a longer prefix is never more
+probable than a shorter one it starts with, and nothing outweighs the empty prefix, whose prefix
+probability is the total weight of all alignments (at most one for sub-stochastic frames). -/
+theorem C05_prefix_split (V : Nat) (frames : List Frame) (p : List Nat) :
+    prefixMass V frames p
+      = mass V frames p + ((List.range V).map (fun v => prefixMass V frames (p ++ [v]))).sum ∧
+    ((∀ f ∈ frames, f.Nonneg) →
+      ((List.range V).map (fun v => prefixMass V frames (p ++ [v]))).sum ≤ prefixMass V frames p ∧
+      mass V frames p ≤ prefixMass V frames p ∧
+      (∀ q, p <+: q → prefixMass V frames q ≤ prefixMass V frames p) ∧
+      prefixMass V frames p ≤ prefixMass V frames []) ∧
+    ((∀ f ∈ frames, f.SubStoch V) → prefixMass V frames [] ≤ 1) := by
+  have hs := prefixMass_split V frames p
+  refine ⟨hs, ?_, ?_⟩
+  · intro hf
+    have h1 := mass_nonneg V frames hf p
+    have h2 : 0 ≤ ((List.range V).map (fun v => prefixMass V frames (p ++ [v]))).sum :=
+      sum_map_nonneg _ _ (fun v _ => prefixMass_nonneg V frames hf _)
+    refine ⟨by linarith, by linarith, fun q hq => prefixMass_mono V frames hf hq,
+      prefixMass_mono V frames hf List.nil_prefix⟩
+  · intro hf
+    rw [prefixMass_nil]
+    exact totalW_le_one V frames hf
+
+/-! Non-vacuity: the two-token frame of the audit (`blank = 1/4`, `tok = (1/2, 1/4)`, no fusion) -/
+def nmFrame : Frame :=
+  { blank := 1/4, tok := fun v => if v = 0 then 1/2 else 1/4, ext := fun _ v => if v = 0 then 1/2 else 1/4 }
+
+theorem nmFrame_stoch : nmFrame.Stoch 2 := by
+  refine stoch_plain ⟨by decide +kernel, fun v => ?_, fun _ v => ?_⟩ (fun _ _ => rfl) (by decide +kernel)
+  all_goals (simp only [nmFrame]; split <;> decide +kernel)
+
+example : ([[], [0], [1], [0, 1], [1, 0], [0, 0], [1, 1]].map (mass 2 [nmFrame, nmFrame])).sum = 1 := by
+  decide +kernel
+/-- `5/8 = 1/2 + (0 + 1/8)`: the prefix probability of `[0]`, its own mass, its extensions `[0,0]`, `[0,1]` -/
+example : prefixMass 2 [nmFrame, nmFrame] [0] = 5/8 ∧ mass 2 [nmFrame, nmFrame] [0] = 1/2 ∧
+    prefixMass 2 [nmFrame, nmFrame] [0, 0] = 0 ∧ prefixMass 2 [nmFrame, nmFrame] [0, 1] = 1/8 := by
+  decide +kernel
+
+/-- The limits of the normalisation theorem: the VALID-MIXTURE fusion formula of the module
+(`(1-β)·tok + β·lm·(1-blank)`, here `β = 1` and a language model that forbids repeating token 0) does not
+give sub-stochastic frames — after reading token 0 the outgoing weight is `blank + tok 0 + ext [0] 1 = 3/2`,
+because a repeat is weighted by the CTC probability and an extension by the fused one.  The "true mass" the
+property speaks about is the sum over alignments of these weights; it is not a probability then. -/
+def vmFrame : Frame :=
+  { blank := 1/4, tok := fun v => if v = 0 then 1/2 else 1/4,
+    ext := fun q v => if q.getLast? = some 0 then (if v = 0 then 0 else 3/4) else (if v = 0 then 1/2 else 1/4) }
+
+example : outW 2 vmFrame [0] (some 0) = 3/2 := by decide +kernel
+example : ¬ vmFrame.SubStoch 2 := fun h => absurd (h.out [0] (some 0)) (by decide +kernel)
 
 end PdtVerif.Ctc
 
@@ -936,5 +1034,36 @@ example := C05_array_exact_unpruned (V := 2) (by decide) 3 (by decide) (auFrames
   auOne_good (by intro f hf; simp only [List.mem_singleton] at hf; subst hf; exact auSpec_nonneg)
   auOne_unpruned 1 (by decide) (1/4) (by decide +kernel)
 example := Ctc.C05_exact_unpruned 2 [auSpec] _ auOne_unpruned [1]
+
+/-! ## What one element reports, added up (improvement round 3) -/
+
+/-- **C05_reported_total** — what `CTCPrefixSearch` (repaired) reports for one batch element, added up:
+under the hypotheses of `C05_module` (any element length, any padding) the probabilities of the slots that
+hold a prefix (`-inf` slots count nothing) are non-negative and add up to at most the total weight of all
+alignments; with sub-stochastic frames — in particular the softmax frames of a search without language
+model — to at most ONE: the module never reports more probability than there is, also in aggregate. -/
+theorem C05_reported_total {V : Nat} (hV : 0 < V) (width : Nat) (hw : 0 < width) (own extra : List FrameIn)
+    (fs : List Ctc.Frame) (hg : GoodRun V width initState own fs) (hss : ∀ f ∈ fs, f.SubStoch V) :
+    0 ≤ reportedTotal (search true V width own.length (own ++ extra)).1 ∧
+    reportedTotal (search true V width own.length (own ++ extra)).1 ≤ 1 := by
+  have hnn : ∀ f ∈ fs, f.Nonneg := fun f h => (hss f h).nonneg
+  have h := reportedTotal_bounds (C05_module hV width hw own extra fs hg hnn) hnn
+  exact ⟨h.1, le_trans h.2 (Ctc.totalW_le_one V fs hss)⟩
+
+/-! Non-vacuity: the audit's three-frame run (V = 2, width 3, merges and pruning); its frames are stochastic -/
+theorem auSpec_stoch : auSpec.Stoch 2 := by
+  refine Ctc.stoch_plain ⟨by decide +kernel, fun v => ?_, fun _ v => ?_⟩ (fun _ _ => rfl) (by decide +kernel)
+  all_goals (simp only [auSpec]; split <;> decide +kernel)
+
+example : 0 ≤ reportedTotal (search true 2 3 auFrames3.length (auFrames3 ++ [])).1 ∧
+    reportedTotal (search true 2 3 auFrames3.length (auFrames3 ++ [])).1 ≤ 1 :=
+  C05_reported_total (by decide) 3 (by decide) auFrames3 [] [auSpec, auSpec, auSpec] auFrames3_good
+    (fun f hf => by
+      simp only [List.mem_cons, List.mem_nil_iff, or_false, or_self] at hf
+      subst hf
+      exact auSpec_stoch.sub)
+
+/-- … strictly less than one here: four of seven candidate prefixes were pruned on the way -/
+example : reportedTotal (search true 2 3 3 auFrames3).1 = 19/32 := by decide +kernel
 
 end PdtVerif.CtcPrefix
